@@ -752,7 +752,9 @@ func relevantFacts(facts []*Term, goal *Term) []*Term {
 		// a loop-header cut that is not the goal's own block: the path BEFORE the loop is not followed
 		// further (the invariant carries what the loop needs), but the named condition under which the
 		// loop was entered stays relevant (e.g. the switch case the loop sits in)
-		cut := strings.Contains(n, "reach!hdr!") && !direct[n]
+		// (only loops of the function under verification: a loop of an inlined callee has no invariant
+		// and is tolerated only when unreachable, so there is nothing that would carry the facts)
+		cut := strings.HasPrefix(n, "reach!hdr!") && !direct[n]
 		if cut {
 			beyond[n] = true
 		}
